@@ -1,6 +1,9 @@
 import SJ.Drv.Mach
 import SJ.Drv.C03
 import SJ.Spec.WF
+import SJ.Spec.Schema
+import SJ.Model.Typed
+import SJ.Model.TypedSer
 /-!
 # C04 driver handlers
 
@@ -12,8 +15,16 @@ Model: the Lean round trip `parseTop (serCompact (ofValue v))` / `serPretty "  "
 three sources. Specification: all six fields are `=`. The float table carries the text the crate
 printed for each float (the driver cannot compute `ryu`), exactly as in C03's `disp`.
 
-`rtt <cfg> <type> <seed> => r1|…|r6` — typed data (the zoo of `harness/src/c04t.rs`); no Lean model of
-typed (de)serialisation yet: the model echoes, the specification is "all `=`".
+`rtt <cfg> <type> <seed> => r1|…|r6` — typed data (the zoo of `harness/src/c04t.rs`, real `serde_derive` output); these
+Rust types have no schema encoding: the model echoes, the specification is "all `=`".
+
+`rtm <cfg> <seed> <schema> <tval> <floats> => <hex to_string>|<back>|<hex to_string_pretty>|<back>` — typed data over the
+schema universe (`harness/src/c04m.rs`): the harness makes the `Serialize` calls of a value of the type `schema` against
+the real serializer and reads the text back with the universal seed. Model: the text `serCompact` / `serPretty "  "` of
+`SJ.Model.TypedSer.progOf schema tval` and `deTypedTop schema` of that text (both computed, nothing echoed except the
+wording of an error). Specification (independent of the models): both values read back are the value written. The driver
+also checks the generator against the well-formedness predicate of the theorem (`wfTV`; `f32` leaves are run although they
+are outside it).
 -/
 namespace SJ.Drv.C04
 open SJ SJ.Drv SJ.Drv.Mach SJ.Model.Ser SJ.Model.Machine
@@ -56,6 +67,64 @@ def rtt : Handler := fun args impl =>
       specs := if impl == allSame then [] else [s!"C04 typed round trip of {ty} is not the identity: {impl}"] }
   | _ => bad "arity"
 
-def handlers : List (String × Handler) := [("rtv", rtv), ("rtt", rtt)]
+/-- `bits:hex text,…`: 16 hex digits = f64, 8 = f32 -/
+def decodeFloats (s : String) : Option C03.Tabs :=
+  if s == "-" then some {} else
+  (s.splitOn ",").foldl (fun acc item =>
+    match acc, item.splitOn ":" with
+    | some tb, [h, t] =>
+      match natOfHexChars h.toList, bytesOfHex t with
+      | some n, some txt =>
+        if h.length == 8 then some { tb with t32 := (UInt32.ofNat n, txt) :: tb.t32 }
+        else some { tb with t64 := (UInt64.ofNat n, txt) :: tb.t64 }
+      | _, _ => none
+    | _, _ => none) (some {})
+
+def showBack (impl : String) : Model.Typed.Top → String
+  | .ok v => "OK:" ++ v.enc
+  | .fuel => "FUEL"
+  | _ => if impl.startsWith "ERR:" then impl else "ERR"
+
+mutual
+/-- `wfTV` with finite `f32` leaves admitted (they are run, although the theorem does not cover them) -/
+def hasF32 : TVal → Bool
+  | .f32 _ => true
+  | .some v | .variant _ v => hasF32 v
+  | .seq xs | .struct_ xs => hasF32List xs
+  | .map kvs => hasF32Pairs kvs
+  | _ => false
+def hasF32List : List TVal → Bool
+  | [] => false
+  | x :: r => hasF32 x || hasF32List r
+def hasF32Pairs : List (TVal × TVal) → Bool
+  | [] => false
+  | (_, x) :: r => hasF32 x || hasF32Pairs r
+end
+
+def rtm : Handler := fun args impl =>
+  match args with
+  | [ct, _, se, te, fe] =>
+    match Schema.decode se, TVal.decode te, decodeFloats fe with
+    | some s, some v, some tb =>
+      if !(hasF32 v || Model.TypedSer.wfTV s v) then bad "generated typed value is outside the well-formedness predicate wfTV" else
+      let cfg := cfgOfTag ct
+      let ext := C03.extOf tb
+      let p := Model.TypedSer.progOf s v
+      let fields := impl.splitOn "|"
+      let one (pretty : Bool) (back : String) : String :=
+        match (if pretty then serPretty ext defaultIndent p else serCompact ext p) with
+        | .error e => "SERERR:" ++ C03.errName e ++ "|-"
+        | .ok bufs =>
+          let bs := bufs.flatten
+          hexField bs ++ "|" ++ showBack back (Model.Typed.deTypedTop { cfg := cfg, src := .str } s bs)
+      let m := one false (fields.getD 1 "") ++ "|" ++ one true (fields.getD 3 "")
+      let want := "OK:" ++ v.enc
+      { model := m,
+        specs := if fields.length == 4 && fields.getD 1 "" == want && fields.getD 3 "" == want then []
+                 else [s!"C04 typed round trip is not the identity: {impl}"] }
+    | _, _, _ => bad "decode"
+  | _ => bad "arity"
+
+def handlers : List (String × Handler) := [("rtv", rtv), ("rtt", rtt), ("rtm", rtm)]
 
 end SJ.Drv.C04
